@@ -80,6 +80,31 @@ func FuzzC05(f *testing.F) {
 	})
 }
 
+// FuzzC18 / FuzzC01 / FuzzC04: the same byte decoding under the oracles over VALID polygons (the oracle sets invalid ones aside):
+// coverage guidance looks for valid shapes in a 4x4 pixel window that take new paths through splitRing, kmpDeduplicate,
+// dedupeInnersOuters and matchInnersToPolygons. Failures that carry the signature of an open known finding are not reported.
+func fuzzValid(f *testing.F, spec report.Spec, oracle func(SnapCase) report.Outcome) {
+	for _, s := range fuzzSeeds {
+		f.Add(s)
+	}
+	f.Add([]byte{4, 0, 0, 16, 0, 16, 16, 0, 16, 255, 2, 2, 2, 14, 14, 14, 14, 9, 12, 9, 12, 12, 4, 12, 4, 4, 12, 4, 12, 7, 14, 7, 14, 2, 255, 6, 6, 6, 10, 10, 10, 10, 6}) // C-shaped hole around a hole
+	f.Add([]byte{0, 0, 0, 7, 0, 7, 3, 9, 3, 9, 0, 16, 0, 16, 8, 9, 8, 9, 5, 7, 5, 7, 8, 0, 8})                                                                             // two lobes and a neck
+	f.Fuzz(func(t *testing.T, data []byte) {
+		c, ok := fuzzPolygon(data)
+		if !ok {
+			return
+		}
+		c.Extra = map[string]int64{"locOff": 1 + 2*int64(data[0]>>4&3), "locOffY": 1 + 2*int64(data[0]>>6&3)}
+		if o := oracle(c); o.Fail != "" && !report.MatchesOpenFinding(spec.Property, o) {
+			fuzzFail(t, spec, c, o)
+		}
+	})
+}
+
+func FuzzC18(f *testing.F) { fuzzValid(f, specC18, oracleC18) }
+func FuzzC01(f *testing.F) { fuzzValid(f, specC01, oracleC01) }
+func FuzzC04(f *testing.F) { fuzzValid(f, specC04, oracleC04) }
+
 // FuzzC06: bytes -> ring structure on the quarter pixel lattice of a 4x4 pixel window -> SnapPolygon.
 func FuzzC06(f *testing.F) {
 	for _, s := range fuzzSeeds {
